@@ -194,7 +194,22 @@ func seqCase(s *seqSpec, obs []stepObs, stopped bool) vh.Case {
 // ---------------------------------------------------------------- generator
 
 var workerChoices = []int{1, 1, 2, 2, 3, 3, 5, 127}
-var capChoices = []int{-1, -1, -1, 1, 1, 2, 2, 3, 100, 0}
+var capChoices = []int{-1, -1, -1, 0, 1, 2, 3, 4, 5, 6, 100}
+
+// a datum: payload 0..99 plus, in the hundreds, what kind of value the store will make of it - 0: a plain int64
+// (weighs 1 in the LRU), s+1: a cache.Value of Size() = s.  Sizes sit at the boundaries of the capacity.
+func genDatum(r *rand.Rand, g *grpSpec) int64 {
+	p := int64(r.Intn(100))
+	if r.Intn(2) == 0 {
+		return p
+	}
+	c := g.Cap
+	sizes := []int{0, 1, 2}
+	if c >= 1 && c <= 6 {
+		sizes = []int{0, 1, c - 1, c, c + 1, 3 * c}
+	}
+	return p + 100*int64(sizes[r.Intn(len(sizes))]+1)
+}
 
 func genGroup(r *rand.Rand, focus string) grpSpec {
 	g := grpSpec{}
@@ -242,7 +257,7 @@ func genGroup(r *rand.Rand, focus string) grpSpec {
 	}
 	for _, k := range g.Univ {
 		if r.Intn(10) < 3 {
-			g.InitL = append(g.InitL, [2]int64{k, int64(r.Intn(100))})
+			g.InitL = append(g.InitL, [2]int64{k, genDatum(r, &g)})
 		}
 	}
 	return g
@@ -292,7 +307,7 @@ func genSteps(r *rand.Rand, g *grpSpec, n int, cancels bool) []opSpec {
 		if r.Intn(10) < 4 {
 			k = g.Univ[r.Intn(len(g.Univ))]
 		}
-		o := opSpec{Op: opWeights[r.Intn(len(opWeights))], K: k, D: int64(r.Intn(100)), Faults: genFaults(r, rate, nilRate, cancelRate)}
+		o := opSpec{Op: opWeights[r.Intn(len(opWeights))], K: k, D: genDatum(r, g), Faults: genFaults(r, rate, nilRate, cancelRate)}
 		if o.Op == opGet || o.Op == opDelete {
 			o.D = 0
 		}
